@@ -45,7 +45,7 @@ func (s cliScenario) String() string {
 
 func c18Gen(t *rapid.T) cliScenario {
 	var sc cliScenario
-	sc.Grammar = rapid.SampledFrom([]string{"valid", "valid", "warned", "syntax-error", "empty", "bad-go"}).Draw(t, "grammar")
+	sc.Grammar = rapid.SampledFrom([]string{"valid", "valid", "warned", "syntax-error", "empty", "bad-go", "duplicate"}).Draw(t, "grammar")
 	p := gram.Profiles["plain"]
 	p.MaxRules, p.Depth, p.WPred, p.WState = 3, 2, 0, 0
 	g := gram.WellFormedGrammar(t, p)
@@ -60,6 +60,10 @@ func c18Gen(t *rapid.T) cliScenario {
 	switch sc.Grammar {
 	case "warned":
 		g.Rules = append(g.Rules, &gram.Rule{Name: "Unused", Body: gram.Lit("u")})
+	case "duplicate":
+		// a rule defined twice: an error of the grammar that only generation notices
+		r := g.Rules[rapid.IntRange(0, len(g.Rules)-1).Draw(t, "duprule")]
+		g.Rules = append(g.Rules, &gram.Rule{Name: r.Name, Body: gram.Lit("z")})
 	case "bad-go":
 		// an action that is not Go: generation produces a file that does not parse
 		g.Rules[0].Body = gram.Seq(g.Rules[0].Body, &gram.Expr{K: gram.KAct, Code: " ) ( "})
@@ -227,6 +231,8 @@ func runScenario(c *drv.Ctx, bin string, sc cliScenario, n int) string {
 		cause = "destination cannot be written (no space left on device)"
 	case sc.Grammar == "syntax-error" || sc.Grammar == "empty":
 		cause = "grammar syntax error"
+	case sc.Grammar == "duplicate":
+		cause = "a rule is defined twice"
 	case sc.Grammar == "bad-go":
 		cause = "generated code does not parse"
 	case sc.Grammar == "warned" && strict:
